@@ -6,7 +6,7 @@
    Kept findings mirrored by the models: #15 (every bracket is rewritten once a backtick occurs), #26 (diff(x,0) = x). *)
 From Coq Require Import ZArith List Bool String Ascii.
 Import ListNotations.
-Require Import PyBase Funcs FuncsFacts FuncsExamples FuncsFacts2 FuncsExamples2 FuncsConv FuncsConvFacts EvalIdx EvalIdxFacts EvalIdxExamples EvalIdxWhole EvalIdxWholeExamples EvalIdxLocate EvalIdxLocateExamples EvalIdxProgram EvalIdxProgramExamples.
+Require Import PyBase Funcs FuncsFacts FuncsExamples FuncsFacts2 FuncsExamples2 FuncsConv FuncsConvFacts EvalIdx EvalIdxFacts EvalIdxExamples EvalIdxWhole EvalIdxWholeExamples EvalIdxLocate EvalIdxLocateExamples EvalIdxProgram EvalIdxProgramExamples EvalIdxProgram2.
 Require Fsic.Locate.Locate Fsic.Locate.LocateFacts.
 Open Scope string_scope.
 Open Scope Z_scope.
@@ -568,6 +568,18 @@ Section C16_label_indexing.
     b_ok b -> (match b with BPosIndex _ | BPosOpenStop _ _ => True | _ => False end) ->
     index_sem n (b_src b) = b_positions gl ct sp n b.
   Proof. exact (positional_bracket_meaning_kept gl ct sp n b). Qed.
+
+  (* eval()'s first step on a program whose backticks all stand inside its brackets: CPython receives a backtick-free text —
+     the program with every bracket replaced (when a backtick occurs) or the text as written (when none does) *)
+  Theorem C16_program_eval_text (prog : list pseg) (ts : list string) (tail : string) :
+    Forall pseg_ok prog -> has_char ch_open tail = false ->
+    Forall (fun p => has_char ch_tick (ps_pre p) = false) prog -> has_char ch_tick tail = false ->
+    Forall2 (fun p t => b_dst gl ct sp (ps_b p) = Ret t) prog ts ->
+    exists text, eval_text (c10_has ct sp) (c10_locate gl sp) (program_text prog tail) = Ret text /\
+                 has_char ch_tick text = false /\
+                 (has_char ch_tick (program_text prog tail) = true -> text = program_subst prog ts tail) /\
+                 (has_char ch_tick (program_text prog tail) = false -> text = program_text prog tail).
+  Proof. exact (program_eval_text gl ct sp prog ts tail). Qed.
 End C16_label_indexing.
 
 (* eval('X[`a`:`b`:s]') selects exactly the elements obj['X', a:b:s] returns (inclusive label slice).  Hypotheses: those of
@@ -795,3 +807,4 @@ Print Assumptions C16_shift_zero_ignores_fill.
 Print Assumptions C16_diff_zero_ignores_fill.
 Print Assumptions C16_helpers_with_cast_never_modify_existing_arrays.
 Print Assumptions C16_int_array_nan_fill_refuted.
+Print Assumptions C16_program_eval_text.
